@@ -33,10 +33,18 @@ def violate(rep, sig, msg, replay):
     rep["violations"].append({"signature": sig, "message": msg, "replay": replay})
 
 
+TEXTS = ["plain", "Hej p\u00e5 dig", "\u20ac", "\ufffdx", "73 de \U0001f4e1"]
+
+
 def expected_stream(chunks, kind):
     """Bytes the sink must have written after all chunks."""
     out = b""
     serial = 0
+    if kind == "packet-string":
+        for _ in range(sum(chunks)):
+            out += TEXTS[serial % len(TEXTS)].encode("utf-8") + b"\n"
+            serial += 1
+        return out
     for c in chunks:
         for _ in range(c):
             if kind.startswith("packet"):
@@ -151,6 +159,8 @@ def c17_kill(rep, tmp, tier, only=None):
     configs.append(("packet-burst", "append", [2, 5]))
     # Enough packets for one that ends in a newline byte (packet 10).
     configs.append(("packet", "overwrite", [11, 1]))
+    # Text packets, not all ASCII.
+    configs.append(("packet-string", "overwrite", [3, 4]))
     # (512 pages: one work() call can find more than a megabyte waiting.)
     configs.append(("stream-big", "overwrite", [100000, 3, 300000, 70000]))
     for kind, mode, chunks in configs:
